@@ -503,7 +503,7 @@ static void cmd_list(Ctx &c)
                         }
                         Item it;
                         it.kind = Item::U;
-                        it.tag = "C19";
+                        it.tag = "C19,C10"; // C19: list faithful to the descriptor; C10: PRINT_CMD_LIST_OK emits the list
                         it.rule = "cmd-list-line";
                         it.cmd = i;
                         it.alts.push_back(text);
@@ -600,9 +600,10 @@ static bool format_test(Ctx &c, int ci, std::string &text, const char **why_tag,
         return true;
 }
 
-static const Step *script_step(const CmdSpec &cs, int kind, size_t &si, Step &def)
+static const Step *script_step(const CmdSpec &cs, int kind, size_t &si, Step &def, int *index)
 {
         const std::vector<Step> &s = cs.script[kind];
+        *index = si < s.size() ? (int)si : -1;
         if (si < s.size())
                 return &s[si++];
         def = Step();
@@ -661,9 +662,11 @@ static void rt_flow(Ctx &c, int ci, int kind)
                         return;
                 }
                 Step def;
-                const Step *st = script_step(cs, kind, si, def);
+                int sidx = -1;
+                const Step *st = script_step(cs, kind, si, def, &sidx);
                 Item h;
                 h.kind = Item::H;
+                h.step = sidx;
                 h.tag = "C06";
                 h.rule = kind == K_READ ? "read-handler-args" : "test-handler-args";
                 h.cmd = ci;
@@ -731,9 +734,11 @@ static void wr_loop(Ctx &c, int ci, int kind, const bytes &args, int args_num)
         size_t si = 0;
         for (int guard = 0; guard < 4096; guard++) {
                 Step def;
-                const Step *st = script_step(cs, kind, si, def);
+                int sidx = -1;
+                const Step *st = script_step(cs, kind, si, def, &sidx);
                 Item h;
                 h.kind = Item::H;
+                h.step = sidx;
                 h.tag = kind == K_WRITE ? "C06" : "C02";
                 h.rule = kind == K_WRITE ? "write-handler-args" : "run-handler";
                 h.cmd = ci;
